@@ -296,9 +296,9 @@ def AState.holdsLock : AState → Nat → Bool
   | .resEnq p' _, p => p' = p
   | _, _ => false
 
-/-- actor is inside AwaitSync on an unsettled promise, or idle -/
-def AState.isIdle : AState → Bool
-  | .idle => true
+/-- the actor is inside the `enqueueContinuations` loop -/
+def AState.isEnq : AState → Bool
+  | .resEnq _ _ => true
   | _ => false
 
 /-- Physical location predicates of a task (no ghost field mentioned). -/
